@@ -15,6 +15,7 @@ import (
 	"dawgsverif/areas/idsetarea"
 	"dawgsverif/areas/reacharea"
 	"dawgsverif/areas/travarea"
+	"dawgsverif/areas/walkarea"
 )
 
 type cmd func(args []string)
@@ -27,6 +28,7 @@ var areas = map[string]map[string]cmd{
 	"trav":    {"run": travarea.Run, "pipe": travarea.Pipe},
 	"front":   {"gate": frontarea.Gate, "build": frontarea.Build, "fuzz": frontarea.Fuzz, "faithful": frontarea.Faithful},
 	"reach":   {"replay": reacharea.Replay},
+	"walk":    {"generic": walkarea.Generic, "models": walkarea.Models, "copy": walkarea.Copy},
 	"idset":   {"replay": idsetarea.Replay, "conc": idsetarea.Conc, "abba": idsetarea.Abba, "toggle": idsetarea.Toggle, "family": idsetarea.Family},
 }
 
